@@ -257,6 +257,7 @@ func (c *DFACache) Clear() {
 	// Clear map (GC will reclaim memory)
 	c.states = make(map[StateKey]*State)
 	c.stateList = c.stateList[:0]
+	c.flatTrans = c.flatTrans[:0] // rows are re-initialised to InvalidState by Insert
 	c.startTable = newStartTableFromByteMap(&c.startTable.byteMap)
 	c.nextID = StateID(c.stride)
 	c.clearCount = 0
@@ -287,6 +288,7 @@ func (c *DFACache) ClearKeepMemory() {
 		delete(c.states, k)
 	}
 	c.stateList = c.stateList[:0]
+	c.flatTrans = c.flatTrans[:0] // rows are re-initialised to InvalidState by Insert
 	c.startTable = newStartTableFromByteMap(&c.startTable.byteMap)
 	c.nextID = StateID(c.stride)
 	c.clearCount++
@@ -343,6 +345,7 @@ func (c *DFACache) Reset() {
 		delete(c.states, k)
 	}
 	c.stateList = c.stateList[:0]
+	c.flatTrans = c.flatTrans[:0] // rows are re-initialised to InvalidState by Insert
 	c.startTable = newStartTableFromByteMap(&c.startTable.byteMap)
 	c.nextID = StateID(c.stride)
 	c.clearCount = 0
